@@ -39,10 +39,13 @@ enum Item {
 fn run_item(base: &Report, cli: &Cli, cfg: &Cfg, idx: usize, item: &Item) -> Report {
     let mut rep = base.fork();
     let mut cx = Ctx::new(&mut rep, false);
+    let tt = std::time::Instant::now();
+    let label = match item { Item::Sweep(p) => format!("sweep {p}"), Item::Random(p, n) => format!("random {p} {n}"), Item::Enums => "enums".to_string() };
     let mut rng = Rng::stream(cli.seed, 0x1000 + idx as u64);
     match item {
         Item::Sweep(p) => {
             let spec = cases::spec_for(p, &mut rng, cfg);
+            eprintln!("T {label} spec {:?}", tt.elapsed());
             let trivial = spec.is_empty();
             let mut pick = Rng::stream(cli.seed, 0x5000_0000 + idx as u64);
             cases::sweep_cases(p, &spec, cfg, &mut pick, |case| {
@@ -56,6 +59,7 @@ fn run_item(base: &Report, cli: &Cli, cfg: &Cfg, idx: usize, item: &Item) -> Rep
         }
         Item::Random(p, n) => {
             let spec = cases::spec_for(p, &mut rng, cfg);
+            eprintln!("T {label} spec {:?}", tt.elapsed());
             for _ in 0..*n {
                 let case = cases::random_case(p, &spec, &mut rng);
                 cx.rep.eval(Some(&cases::case_class(&case)));
@@ -70,6 +74,7 @@ fn run_item(base: &Report, cli: &Cli, cfg: &Cfg, idx: usize, item: &Item) -> Rep
         }
     }
     cx.flush();
+    eprintln!("T {label} done {:?} evals {}", tt.elapsed(), rep.evaluations());
     rep
 }
 
